@@ -202,7 +202,18 @@ def recase(text, how="upper"):
     return vlex.unlex(out) if n else None
 
 
+def break_comment(text, g=3, p=0):
+    """a line break AND a comment at every g-th interior blank: a comment between any two tokens a blank separates"""
+    v = break_at(text, g, p)
+    if v is None:
+        return None
+    return eol_comment(v, 1, 0)
+
+
 RECIPES = {
+    "breakcmt3a": lambda s: break_comment(s, 3, 0),
+    "breakcmt3b": lambda s: break_comment(s, 3, 1),
+    "breakcmt3c": lambda s: break_comment(s, 3, 2),
     "eol1": lambda s: eol_comment(s, 1, 0),
     "eol3a": lambda s: eol_comment(s, 3, 0),
     "eol3b": lambda s: eol_comment(s, 3, 1),
@@ -230,7 +241,7 @@ def apply(name, text):
     if v is None or v == text:
         return None
     # a recipe must not change the code tokens or the comments' order (self check of the harness, not of VSG)
-    if name.startswith(("eol", "own")):
+    if name.startswith(("eol", "own", "breakcmt")):
         if vlex.code_tokens(v) != vlex.code_tokens(text):
             return None
     elif name in ("upper", "lower", "flip"):
